@@ -61,6 +61,9 @@ def replay(name, inp):
         mode = 'master_error' if inp.get('master_error') else ('nested' if inp.get('nested') else 'scheduler_graphs')
         out = native.call(mode, {}, timeout=60)
         return {'reproduced': bool(out.get('failures')), 'observed': out.get('failures', [])[:2]}
+    if inp.get('wide'):
+        out = native.call('wide', {}, timeout=120)
+        return {'reproduced': bool(out.get('failures')), 'observed': out.get('failures', [])[:2]}
     if 'cycle_of' in inp:
         out = native.call('cyclic', {}, timeout=60)
         return {'reproduced': bool(out.get('failures')), 'observed': out.get('failures', [])[:2]}
